@@ -21,3 +21,13 @@ impl Str {
     #[verifier::external_body]
     pub fn trim_end(&self) -> (r: &Str) ensures r@ == trim_end(self@) { unimplemented!() }
 }
+// Vec<&str>::join(sep) (method_rename join -> vx_join_refs) and `Ident::to_string` passed as a function (typemap ToString::to_string)
+pub open spec fn join_refs(parts: Seq<&Str>, sep: Seq<char>, n: int) -> Seq<char> decreases n
+{ if n <= 0 { Seq::empty() } else if n == 1 { parts[0]@ } else { join_refs(parts, sep, n - 1) + sep + parts[n - 1]@ } }
+pub trait VxStrRefVec { fn vx_join_refs(&self, sep: &Str) -> Str; }
+impl<'a> VxStrRefVec for Vec<&'a Str> {
+    #[verifier::external_body]
+    fn vx_join_refs(&self, sep: &Str) -> (r: Str) ensures r@ == join_refs(self@, sep@, self@.len() as int) { unimplemented!() }
+}
+#[verifier::external_body]
+pub fn vx_ident_to_string(i: &Ident) -> (r: Str) ensures r@ == i@ { unimplemented!() }
